@@ -40,8 +40,15 @@ def storeEffects (b : MvccBk) (s : String) (toks : List String) : Option (MvccSt
     match contentOf b.base sn with
     | none => none
     | some c =>
-      let (d, out) := mvccStep b.base ["close", s]
+      let (d0, out) := mvccStep b.base ["close", s]
       if out != "ok" then none else
+      -- `release=<s2>`: the script's reference on another snapshot is dropped in the middle of the backup
+      let rel : Option MvccSt := match argOf toks "release" with
+        | none => some d0
+        | some r => let (dr, o) := mvccStep d0 ["close", r]; if o == "ok" then some dr else none
+      match rel with
+      | none => none
+      | some d =>
       match argOf toks "churn" with
       | none => some (d, c)
       | some "each" =>
